@@ -75,6 +75,7 @@ type sim struct {
 	snaps       []checkpoint.ICheckPoint // race mode: deep copies waiting for the saver thread
 	ccFreeze    uint32 // cross-chain UTXO freeze height (0: policy disabled)
 	ccRestrict   uint32 // cross-chain UTXO restriction height
+	typedNamed   []int  // side-chain hash indexes named by typed outputs of legacy withdrawals built so far
 }
 
 func (s *sim) now() time.Time { return time.Now() }
